@@ -3,6 +3,8 @@ mod c08;
 mod c09;
 mod c10;
 mod c11;
+mod c13;
+mod c14;
 mod c15;
 mod c16;
 mod c17;
@@ -99,6 +101,8 @@ fn main() {
         "c09" => c09::run(&args),
         "c10" => c10::run(&args),
         "c11" => c11::run(&args),
+        "c13" => c13::run(&args),
+        "c14" => c14::run(&args),
         "c15" => c15::run(&args),
         "c19" => c19::run(&args),
         "c18" => c18::run(&args),
